@@ -770,6 +770,10 @@ def h_view(axis_rule=None):
                 norm = x.norm
             elif isinstance(x.norm, tuple):
                 norm = x.norm
+        if norm == 'RAW' and isinstance(x.norm, tuple) and axis_rule in ('swapaxes', 'moveaxis', 'transpose'):
+            # a pure reordering of a unit-norm array whose axis order could not be followed (computed at run time): still of unit norm along SOME axis - the typestate
+            # is lost (undecided at the sink), not RAW
+            norm = None
         return AV(kind=ARR, deps=x.deps, alias=x.alias, shape=shape, norm=norm, sign=x.sign, dtype=x.dtype, vid=None,
                   meta=('view', name, x))
     return h
